@@ -275,7 +275,7 @@ func leasesKey(l []dhcp4.VerifLease, now time.Time) string {
 		if !v.DHCPExpiry.IsZero() {
 			age = int64(v.DHCPExpiry.Sub(now))
 		}
-		fmt.Fprintf(&sb, "L[%x st=%d ip=%v offer=%v xid=%x net=%s exp=%d]", v.ClientID, v.State, v.IP, v.IPOffer, v.XID, v.SubnetID, age)
+		fmt.Fprintf(&sb, "L[%x mac=%x name=%q st=%d ip=%v offer=%v xid=%x net=%s exp=%d]", v.ClientID, []byte(v.MAC), v.Name, v.State, v.IP, v.IPOffer, v.XID, v.SubnetID, age)
 	}
 	return sb.String()
 }
